@@ -114,7 +114,12 @@ def exec_call(world, op, executor_mode='inprocess', poplog=False, binary=None, u
     schedule = op.get('schedule') or {}
     sim = simpool.Simulator()
     state = simpool.new_pool_state()
-    executor = simpool.fork_executor() if executor_mode == 'fork' else simpool.inprocess_executor()
+    if executor_mode == 'fork':
+        executor = simpool.fork_executor()
+    elif executor_mode == 'replica':
+        executor = simpool.replica_executor(schedule, poplog)
+    else:
+        executor = simpool.inprocess_executor()
     saved = _install_seams(sim, state, schedule, executor)
     binary = binary if binary is not None else world.binary
     unary = unary if unary is not None else world.unary
